@@ -2,7 +2,7 @@ SPECIFICATION Spec
 CONSTANTS Box = 7
  Quota = 3
  EQuota = 24
- MQuota = 12
+ MQuota = 30
 INVARIANT ClipOK
 INVARIANT RefineOK
 INVARIANT LemmaOK
